@@ -19,6 +19,7 @@ man = {
   {"name": "simkernel", "path": "mc/simkernel.py", "serves_properties": ["C05","C06","C07","C08","C09","C10","C11","C12","C13","C14","C15","C16","C17","C18","C19"], "kind_free_text": "deterministic cooperative scheduler + virtual clock + fake socket layer under the unmodified node code"},
   {"name": "histbfs", "path": "mc/histbfs.py", "serves_properties": ["C06","C07","C08","C09","C11","C12","C13","C17","C19"], "kind_free_text": "explicit-state BFS over environment event histories; each transition executes the real node"},
   {"name": "scheddfs", "path": "mc/scheddfs.py", "serves_properties": ["C06","C07","C08","C09","C10","C11","C12","C13","C15","C16","C17","C18"], "kind_free_text": "stateless DFS over thread schedules with iterative preemption bounding (CHESS style)"},
+  {"name": "handover", "path": "mc/handover.py", "serves_properties": ["C13","C19"], "kind_free_text": "an environment fault at every kernel step of a window followed at once by the reacting thread (one fault + one forced hand-over; complete over the numbered steps)"},
   {"name": "faultenum", "path": "mc/checks/c14.py", "serves_properties": ["C05","C14","C18"], "kind_free_text": "every cut point x fault kind of scripted scenarios, followed by a service probe"}
  ],
  "checks": [
